@@ -1,10 +1,16 @@
-"""C16 — configuration of the check (deductive tier under construction)."""
+"""C16 — Flipping image parity reverses rows but moves no pixel on the sky."""
 PROPERTY = "C16"
-LEVEL = "exploration"
-CONTRACT_MODULES = ["contracts.specfuns"]
-FUNCTIONS = []
+LEVEL = "other"
+CONTRACT_MODULES = ["contracts.specfuns", "contracts.lemmas_desc", "contracts.pyramid", "contracts.image", "contracts.merge",
+                    "contracts.pyramidio", "contracts.study", "contracts.parallel", "contracts.multitan", "contracts.parity"]
+FUNCTIONS = ["toasty.image._wcs_to_parity_sign", "toasty.image._flip_wcs_parity", "toasty.image.Image.flip_parity",
+             "toasty.image.ImageDescription.flip_parity", "toasty.image.Image.ensure_negative_parity",
+             "toasty.image.ImageDescription.ensure_negative_parity"]
 LEMMAS = []
 SLOW = ()
-TRUSTED_BASE = []
-ASSUMPTIONS = []
-EXPLANATION = "bounded run-time tier only so far"
+TRUSTED_BASE = ["pyvc VC generator; z3 (non-linear real arithmetic)/cvc5",
+                "astropy WCS contract: intermediate = CD.(p - CRPIX), to_header gives CDELT*PC == CD, WCS(header) realises the header",
+                "machine floats treated as mathematical reals"]
+ASSUMPTIONS = ["that equal intermediate coordinates give equal sky positions (the non-linear projection is applied after the linear "
+               "stage) is part of the WCS contract; real astropy round trips are in the bounded tier"]
+EXPLANATION = "header reflection proved as a polynomial identity over the reals; parity sign, row reversal, idempotence of ensure_negative_parity"
